@@ -239,6 +239,8 @@ def _run_segment(seg: Dict[str, Any], out: Dict[str, Any]) -> None:
                 kwargs["dds_stages"] = [getattr(dds.ProcessingStage, x[1:]) if isinstance(x, str) and x.startswith("@") else x
                                         for x in kwargs["dds_stages"]]
             args = list(st.get("args") or [])
+            if st.get("arg_versions"):
+                args = [L.ARG_VALS[v] for v in st["arg_versions"]]
             gfile = None
             if kwargs.get("dds_export_graph") is True:
                 gfile = os.path.join(root, "graph_%d.dot" % len(out["steps"]))
